@@ -9,32 +9,58 @@ by the engine for that tag at or before the recorded time."
 
 Setting of every theorem: an arbitrary history `pre` (UodInfoMsg, run starts and stops, tag messages, in any order)
 has been handled; a run is active; now an arbitrary stream `msgs` of TagsUpdatedMsg arrives (any run id field, any
-tags, any order of tick times, duplicates, tags never seen before).  `rowsWritten pre msgs` are the
+tags, any order of tick times, duplicates, tags never seen before).  `rowsWritten pol pre msgs` are the
 PlotLogEntryValue rows written while handling `msgs`, in insertion order.  `Row.time` is the stored tick_time,
 `Row.src` the tick_time the engine reported the stored value with (ghost field of the model).
+Every theorem is for every `Policy` (upsert overwrites / keeps the newer report; threshold `>` / `>=`); `asIs` is /repo.
+
+Full statement and what is proved: the property speaks about *a run's plot log*.  If the engine's connection is lost
+and re-established inside the run (`Op.reconnect`), `latest_persisted_tick_time` is gone and the first message after the
+re-registration is recorded unconditionally: `C29_full` (streams with reconnects) is false (`C29_counterexample`,
+recorded as a finding); `C29_partial` = the statements for streams without a reconnect — from *any* earlier history,
+so they hold for every reconnect-free stretch of a run, in particular for the whole run when there is no reconnect.
 -/
 namespace OPM.C29
 open OPM.PlotPersist
 
-def stateAfter (pre : List Op) : State := (runOps init pre).1
-def rowsWritten (pre msgs : List Op) : List Row := (runOps (stateAfter pre) msgs).2
+def stateAfter (pol : Policy) (pre : List Op) : State := (runOps (initWith pol) pre).1
+def rowsWritten (pol : Policy) (pre msgs : List Op) : List Row := (runOps (stateAfter pol pre) msgs).2
+
+/-- the variant of the implementation never changes -/
+theorem pol_stateAfter (pol : Policy) (pre : List Op) : (stateAfter pol pre).pol = pol := by
+  have gen : ∀ (ops : List Op) (s : State), (runOps s ops).1.pol = s.pol := by
+    intro ops
+    induction ops with
+    | nil => intro s; rfl
+    | cons op ops ih =>
+      intro s
+      rw [runOps_cons, ih]
+      cases op with
+      | uod r i => rfl
+      | newRun => rfl
+      | stopRun => rfl
+      | reconnect => rfl
+      | tags mr ups => simp only [step]; split <;> rfl
+  exact gen pre (initWith pol)
 
 /-- A stream of tag-update messages. -/
 def TagStream (msgs : List Op) : Prop := ∀ op ∈ msgs, IsTags op
 
 /-- Everything proved about the rows at once (the reader-facing statements below are projections of this). -/
-theorem stream_rows_ok (pre msgs : List Op) (rid : Nat) (L : Option Rat)
-    (hrun : (stateAfter pre).run = some (rid, L)) (hmsgs : TagStream msgs) :
-    RowsOK (stateAfter pre).interval (stateAfter pre).entries rid L (Reported (stateAfter pre) msgs)
-      (rowsWritten pre msgs) :=
-  rows_ok msgs hmsgs (stateAfter pre) rid L hrun (nodup_runOps pre init (by simp [init, keys]))
+theorem stream_rows_ok (pol : Policy) (pre msgs : List Op) (rid : Nat) (L : Option Rat)
+    (hrun : (stateAfter pol pre).run = some (rid, L)) (hmsgs : TagStream msgs) :
+    RowsOK pol (stateAfter pol pre).interval (stateAfter pol pre).entries rid L (Reported (stateAfter pol pre) msgs)
+      (rowsWritten pol pre msgs) := by
+  have := rows_ok msgs hmsgs (stateAfter pol pre) rid L hrun
+    (nodup_runOps pre (initWith pol) (by simp [initWith, keys]))
+  rwa [pol_stateAfter] at this
 
 /-- **Monotone.** Timestamps never decrease along the table, and the rows of one tag have strictly increasing
     timestamps (rows with equal timestamps belong to one batch and to different tags). -/
-theorem timestamps_strictly_increasing (pre msgs : List Op) (rid : Nat) (L : Option Rat)
-    (hrun : (stateAfter pre).run = some (rid, L)) (hmsgs : TagStream msgs) :
-    (rowsWritten pre msgs).Pairwise (fun a b => a.time ≤ b.time ∧ (a.name = b.name → a.time < b.time)) := by
-  have h := stream_rows_ok pre msgs rid L hrun hmsgs
+theorem timestamps_strictly_increasing (pol : Policy) (pre msgs : List Op) (rid : Nat) (L : Option Rat)
+    (hrun : (stateAfter pol pre).run = some (rid, L)) (hmsgs : TagStream msgs) :
+    (rowsWritten pol pre msgs).Pairwise (fun a b => a.time ≤ b.time ∧ (a.name = b.name → a.time < b.time)) := by
+  have h := stream_rows_ok pol pre msgs rid L hrun hmsgs
   refine h.pair.imp_of_mem ?_
   intro a b _ hb hab
   have hbs := (h.each b hb).2.1
@@ -45,12 +71,13 @@ theorem timestamps_strictly_increasing (pre msgs : List Op) (rid : Nat) (L : Opt
 /-- **Throttled.** Two rows are either in the same batch (same timestamp) or more than the data-log interval
     apart; in particular two rows of one tag are more than the interval apart (and with the default interval
     `math.inf` a tag is recorded at most once). -/
-theorem at_most_once_per_interval (pre msgs : List Op) (rid : Nat) (L : Option Rat)
-    (hrun : (stateAfter pre).run = some (rid, L)) (hmsgs : TagStream msgs) :
-    (rowsWritten pre msgs).Pairwise (fun a b =>
+theorem at_most_once_per_interval (pol : Policy) (pre msgs : List Op) (rid : Nat) (L : Option Rat)
+    (hrun : (stateAfter pol pre).run = some (rid, L)) (hmsgs : TagStream msgs) :
+    (rowsWritten pol pre msgs).Pairwise (fun a b =>
       (a.time = b.time ∧ a.name ≠ b.name) ∨
-      ((stateAfter pre).interval ≠ none ∧ ∀ d, (stateAfter pre).interval = some d → d < b.time - a.time)) := by
-  have h := stream_rows_ok pre msgs rid L hrun hmsgs
+      ((stateAfter pol pre).interval ≠ none ∧
+        ∀ d, (stateAfter pol pre).interval = some d → Gap pol d (b.time - a.time))) := by
+  have h := stream_rows_ok pol pre msgs rid L hrun hmsgs
   refine h.pair.imp ?_
   intro a b hab
   rcases hab with h1 | ⟨_, h2, h3⟩
@@ -59,10 +86,10 @@ theorem at_most_once_per_interval (pre msgs : List Op) (rid : Nat) (L : Option R
 
 /-- **Never older.** A later row of a tag holds a value that the engine reported with a strictly later tick time
     than the value of every earlier row of that tag — even later than the earlier row's *timestamp*. -/
-theorem never_older (pre msgs : List Op) (rid : Nat) (L : Option Rat)
-    (hrun : (stateAfter pre).run = some (rid, L)) (hmsgs : TagStream msgs) :
-    (rowsWritten pre msgs).Pairwise (fun a b => a.name = b.name → a.src < b.src ∧ a.time < b.src) := by
-  have h := stream_rows_ok pre msgs rid L hrun hmsgs
+theorem never_older (pol : Policy) (pre msgs : List Op) (rid : Nat) (L : Option Rat)
+    (hrun : (stateAfter pol pre).run = some (rid, L)) (hmsgs : TagStream msgs) :
+    (rowsWritten pol pre msgs).Pairwise (fun a b => a.name = b.name → a.src < b.src ∧ a.time < b.src) := by
+  have h := stream_rows_ok pol pre msgs rid L hrun hmsgs
   refine h.pair.imp_of_mem ?_
   intro a b ha _ hab he
   have has := (h.each a ha).2.1
@@ -73,14 +100,14 @@ theorem never_older (pre msgs : List Op) (rid : Nat) (L : Option Rat)
 /-- **Faithful.** Every row belongs to the active run, to a tag that has a plot-log entry, and stores a value that
     the engine reported for that tag (it was in the tag map before the stream or is a tag value of one of the
     messages) with a tick time not later than the row's timestamp. -/
-theorem faithful (pre msgs : List Op) (rid : Nat) (L : Option Rat)
-    (hrun : (stateAfter pre).run = some (rid, L)) (hmsgs : TagStream msgs) :
-    ∀ r ∈ rowsWritten pre msgs,
-      r.run = rid ∧ r.name ∈ (stateAfter pre).entries ∧ r.src ≤ r.time ∧
-      ((r.name, (⟨r.value, r.src⟩ : TagVal)) ∈ (stateAfter pre).tags ∨
+theorem faithful (pol : Policy) (pre msgs : List Op) (rid : Nat) (L : Option Rat)
+    (hrun : (stateAfter pol pre).run = some (rid, L)) (hmsgs : TagStream msgs) :
+    ∀ r ∈ rowsWritten pol pre msgs,
+      r.run = rid ∧ r.name ∈ (stateAfter pol pre).entries ∧ r.src ≤ r.time ∧
+      ((r.name, (⟨r.value, r.src⟩ : TagVal)) ∈ (stateAfter pol pre).tags ∨
         ∃ op ∈ msgs, ∃ u ∈ updatesOf op, u.name = r.name ∧ u.value = r.value ∧ u.time = r.src) := by
   intro r hr
-  obtain ⟨h1, h2, h3, h4⟩ := (stream_rows_ok pre msgs rid L hrun hmsgs).each r hr
+  obtain ⟨h1, h2, h3, h4⟩ := (stream_rows_ok pol pre msgs rid L hrun hmsgs).each r hr
   refine ⟨h1, h3, h2, ?_⟩
   rcases h4 with h4 | ⟨op, hop, u, hu, he⟩
   · exact Or.inl h4
@@ -91,23 +118,23 @@ theorem faithful (pre msgs : List Op) (rid : Nat) (L : Option Rat)
 /-- **Continuation.** If a batch was already persisted in this run at time `l`, every new row is later than `l` by
     more than the interval and stores a value reported after `l`; so the four statements above extend to the rows
     written earlier in the run (whose timestamps are ≤ `l`, see `whole_run`). -/
-theorem after_last_persisted (pre msgs : List Op) (rid : Nat) (l : Rat)
-    (hrun : (stateAfter pre).run = some (rid, some l)) (hmsgs : TagStream msgs) :
-    ∀ r ∈ rowsWritten pre msgs,
-      l < r.src ∧ l < r.time ∧ (stateAfter pre).interval ≠ none ∧
-      ∀ d, (stateAfter pre).interval = some d → d < r.time - l := by
+theorem after_last_persisted (pol : Policy) (pre msgs : List Op) (rid : Nat) (l : Rat)
+    (hrun : (stateAfter pol pre).run = some (rid, some l)) (hmsgs : TagStream msgs) :
+    ∀ r ∈ rowsWritten pol pre msgs,
+      l < r.src ∧ l < r.time ∧ (stateAfter pol pre).interval ≠ none ∧
+      ∀ d, (stateAfter pol pre).interval = some d → Gap pol d (r.time - l) := by
   intro r hr
-  have h := stream_rows_ok pre msgs rid (some l) hrun hmsgs
+  have h := stream_rows_ok pol pre msgs rid (some l) hrun hmsgs
   obtain ⟨h1, h2, h3⟩ := h.afterL l rfl r hr
   have := (h.each r hr).2.1
   exact ⟨h1, by grind, h2, h3⟩
 
 /-- The latest_persisted_tick_time bounds every timestamp written so far in the run. -/
-theorem persisted_time_bounds (pre msgs : List Op) (rid : Nat) (L : Option Rat)
-    (hrun : (stateAfter pre).run = some (rid, L)) (hmsgs : TagStream msgs) :
-    ∀ rid' l, (runOps (stateAfter pre) msgs).1.run = some (rid', some l) →
-      rid' = rid ∧ (∀ l₀, L = some l₀ → l₀ ≤ l) ∧ ∀ r ∈ rowsWritten pre msgs, r.time ≤ l := by
-  have hk := nodup_runOps pre init (by simp [init, keys])
+theorem persisted_time_bounds (pol : Policy) (pre msgs : List Op) (rid : Nat) (L : Option Rat)
+    (hrun : (stateAfter pol pre).run = some (rid, L)) (hmsgs : TagStream msgs) :
+    ∀ rid' l, (runOps (stateAfter pol pre) msgs).1.run = some (rid', some l) →
+      rid' = rid ∧ (∀ l₀, L = some l₀ → l₀ ≤ l) ∧ ∀ r ∈ rowsWritten pol pre msgs, r.time ≤ l := by
+  have hk := nodup_runOps pre (initWith pol) (by simp [initWith, keys])
   have gen : ∀ (msgs : List Op), (∀ op ∈ msgs, IsTags op) → ∀ (s : State) (L : Option Rat),
       s.run = some (rid, L) → (keys s.tags).Nodup → ∀ rid' l, (runOps s msgs).1.run = some (rid', some l) →
         rid' = rid ∧ (∀ l₀, L = some l₀ → l₀ ≤ l) ∧ ∀ r ∈ (runOps s msgs).2, r.time ≤ l := by
@@ -125,7 +152,7 @@ theorem persisted_time_bounds (pre msgs : List Op) (rid : Nat) (L : Option Rat)
       have hop := hops op (by simp)
       match op, hop with
       | .tags mr ups, _ =>
-        obtain ⟨_, _, hk₁, _, hcase⟩ := step_tags_active s rid L mr ups hrun hk
+        obtain ⟨_, _, _, hk₁, _, hcase⟩ := step_tags_active s rid L mr ups hrun hk
         rw [runOps_cons] at hl ⊢
         rcases hcase with ⟨hrun₁, hrows⟩ | ⟨h, hrun₁, hb⟩
         · have := ih (fun o ho => hops o (by simp [ho])) _ L hrun₁ hk₁ rid' l hl
@@ -139,26 +166,26 @@ theorem persisted_time_bounds (pre msgs : List Op) (rid : Nat) (L : Option Rat)
             rcases List.mem_append.mp hr with hr | hr
             · rw [hb.time r hr]; exact hle
             · exact h3 r hr
-  exact gen msgs hmsgs (stateAfter pre) L hrun hk
+  exact gen msgs hmsgs (stateAfter pol pre) L hrun hk
 
 /-- **Whole run.** From the RunStartedMsg on, as long as only tag updates arrive, all four statements hold for all
     rows of the run (nothing was persisted before: `latest_persisted_tick_time = None`). -/
-theorem whole_run (pre msgs : List Op) (hmsgs : TagStream msgs) :
-    let rows := rowsWritten (pre ++ [.newRun]) msgs
+theorem whole_run (pol : Policy) (pre msgs : List Op) (hmsgs : TagStream msgs) :
+    let rows := rowsWritten pol (pre ++ [.newRun]) msgs
     rows.Pairwise (fun a b => a.time ≤ b.time ∧ (a.name = b.name → a.time < b.time ∧ a.src < b.src)) ∧
     ∀ r ∈ rows, r.src ≤ r.time := by
-  have hrun : ∃ rid, (stateAfter (pre ++ [.newRun])).run = some (rid, none) := by
+  have hrun : ∃ rid, (stateAfter pol (pre ++ [.newRun])).run = some (rid, none) := by
     have : ∀ (ops : List Op) (s : State), (runOps s (ops ++ [.newRun])).1.run = some ((runOps s ops).1.nextRun, none) := by
       intro ops
       induction ops with
       | nil => intro s; simp [runOps, step]
       | cons o os ih => intro s; simp only [List.cons_append, runOps_cons]; exact ih _
-    exact ⟨_, this pre init⟩
+    exact ⟨_, this pre (initWith pol)⟩
   obtain ⟨rid, hrun⟩ := hrun
   intro rows
-  have h1 := timestamps_strictly_increasing _ msgs rid none hrun hmsgs
-  have h2 := never_older _ msgs rid none hrun hmsgs
-  refine ⟨?_, fun r hr => (faithful _ msgs rid none hrun hmsgs r hr).2.2.1⟩
+  have h1 := timestamps_strictly_increasing pol _ msgs rid none hrun hmsgs
+  have h2 := never_older pol _ msgs rid none hrun hmsgs
+  refine ⟨?_, fun r hr => (faithful pol _ msgs rid none hrun hmsgs r hr).2.2.1⟩
   have := h1.and h2
   exact this.imp (fun ⟨⟨a, b⟩, c⟩ => ⟨a, fun he => ⟨b he, (c he).1⟩⟩)
 
@@ -173,15 +200,85 @@ def exMsgs : List Op :=
    .tags none [⟨"a", "i:7", 50⟩],                           -- message without run id: ignored altogether
    .tags (some 0) [⟨"c", "i:8", 7⟩]]                        -- 7 - 1 > 5: batch at t = 7 with a = i:2 and b = i:4
 
-example : (stateAfter exPre).run = some (0, none) ∧ TagStream exMsgs ∧
-    rowsWritten exPre exMsgs =
+example : (stateAfter asIs exPre).run = some (0, none) ∧ TagStream exMsgs ∧
+    rowsWritten asIs exPre exMsgs =
       [⟨0, "b", 1, "i:0", 0⟩, ⟨0, "a", 1, "i:1", 1⟩, ⟨0, "b", 7, "i:4", 3⟩, ⟨0, "a", 7, "i:2", 4⟩] := by
   refine ⟨by decide +kernel, ?_, by decide +kernel⟩
   intro op hop
   simp only [exMsgs, List.mem_cons, List.not_mem_nil, or_false] at hop
   rcases hop with rfl | rfl | rfl | rfl | rfl | rfl <;> trivial
 
+
+/-- The `keepNewer` variant on the same input stores `b = i:5` (the newest report) in the second batch. -/
+example : rowsWritten { keepNewer := true } exPre exMsgs =
+      [⟨0, "b", 1, "i:0", 0⟩, ⟨0, "a", 1, "i:1", 1⟩, ⟨0, "b", 7, "i:5", 6⟩, ⟨0, "a", 7, "i:2", 4⟩] := by
+  decide +kernel
+
+/-! ### the whole run, reconnects included -/
+
+/-- a stream of tag updates during which the connection may be lost and re-established -/
+def RunStream (msgs : List Op) : Prop := ∀ op ∈ msgs, IsTags op ∨ op = .reconnect
+
+/-- **Full statement** (first clause only — it already fails): the rows of one tag in the run's plot log have strictly
+    increasing timestamps, for every stream of tag updates and reconnects during the run. -/
+def C29_full (pol : Policy) : Prop :=
+  ∀ (pre msgs : List Op) (rid : Nat) (L : Option Rat),
+    (stateAfter pol pre).run = some (rid, L) → RunStream msgs →
+      (rowsWritten pol pre msgs).Pairwise (fun a b => a.name = b.name → a.time < b.time)
+
+def cexPre : List Op := [.uod ["a"] (some 0), .newRun]
+/-- a value reported at 5 is recorded; the connection is lost; an older report (3) arrives after the re-registration -/
+def cexMsgs : List Op := [.tags (some 0) [⟨"a", "i:1", 5⟩], .reconnect, .tags (some 0) [⟨"a", "i:2", 3⟩]]
+/-- the same message delivered again after the re-registration (at-least-once delivery) -/
+def cexMsgsDup : List Op := [.tags (some 0) [⟨"a", "i:1", 5⟩], .reconnect, .tags (some 0) [⟨"a", "i:1", 5⟩]]
+
+theorem cex_rows (pol : Policy) :
+    rowsWritten pol cexPre cexMsgs = [⟨0, "a", 5, "i:1", 5⟩, ⟨0, "a", 3, "i:2", 3⟩] ∧
+    rowsWritten pol cexPre cexMsgsDup = [⟨0, "a", 5, "i:1", 5⟩, ⟨0, "a", 5, "i:1", 5⟩] := by
+  obtain ⟨k, st⟩ := pol
+  cases k <;> cases st <;> decide +kernel
+
+/-- With a reconnect inside the run the plot log gets a *decreasing* (or repeated) timestamp, in every variant. -/
+theorem C29_counterexample (pol : Policy) : ¬ C29_full pol := by
+  intro h
+  have hrun : (stateAfter pol cexPre).run = some (0, none) := by
+    obtain ⟨k, st⟩ := pol
+    cases k <;> cases st <;> decide +kernel
+  have hs : RunStream cexMsgs := by
+    intro op hop
+    simp only [cexMsgs, List.mem_cons, List.not_mem_nil, or_false] at hop
+    rcases hop with rfl | rfl | rfl
+    · exact Or.inl trivial
+    · exact Or.inr rfl
+    · exact Or.inl trivial
+  have := h cexPre cexMsgs 0 none hrun hs
+  rw [(cex_rows pol).1] at this
+  revert this
+  decide +kernel
+
+/-- **What holds**: without a reconnect inside the stream (reconnects before it are fine) — all four clauses. -/
+theorem C29_partial (pol : Policy) (pre msgs : List Op) (rid : Nat) (L : Option Rat)
+    (hrun : (stateAfter pol pre).run = some (rid, L)) (hmsgs : TagStream msgs) :
+    (rowsWritten pol pre msgs).Pairwise (fun a b =>
+      (a.time ≤ b.time ∧ (a.name = b.name → a.time < b.time)) ∧
+      ((a.time = b.time ∧ a.name ≠ b.name) ∨
+        ((stateAfter pol pre).interval ≠ none ∧
+          ∀ d, (stateAfter pol pre).interval = some d → Gap pol d (b.time - a.time))) ∧
+      (a.name = b.name → a.src < b.src ∧ a.time < b.src)) ∧
+    ∀ r ∈ rowsWritten pol pre msgs,
+      r.run = rid ∧ r.name ∈ (stateAfter pol pre).entries ∧ r.src ≤ r.time ∧
+      ((r.name, (⟨r.value, r.src⟩ : TagVal)) ∈ (stateAfter pol pre).tags ∨
+        ∃ op ∈ msgs, ∃ u ∈ updatesOf op, u.name = r.name ∧ u.value = r.value ∧ u.time = r.src) :=
+  ⟨((timestamps_strictly_increasing pol pre msgs rid L hrun hmsgs).and
+      (at_most_once_per_interval pol pre msgs rid L hrun hmsgs)).and
+      (never_older pol pre msgs rid L hrun hmsgs) |>.imp (fun ⟨⟨a, b⟩, c⟩ => ⟨a, b, c⟩),
+   faithful pol pre msgs rid L hrun hmsgs⟩
+
+/-- e.g. the stretch after a reconnect: the run is still active there, so `C29_partial` applies to what follows -/
+example : (stateAfter asIs (cexPre ++ [.tags (some 0) [⟨"a", "i:1", 5⟩], .reconnect])).run = some (0, none) := by
+  decide +kernel
+
 /-- The one way a tag message can fail: nothing at all is known about any tag when the first batch is due. -/
-example : (step (stateAfter [.newRun]) (.tags (some 0) [])).2 = .valueError := by decide +kernel
+example : (step (stateAfter asIs [.newRun]) (.tags (some 0) [])).2 = .valueError := by decide +kernel
 
 end OPM.C29
